@@ -502,7 +502,8 @@ def check_diff(prog, rep):
             got = next((tv for tk, tv in table.items() if all(a is None or a == b for a, b in zip(tk, k)) and tv == "None"), None)
         if got != v:
             probs.append("cells that are %s/%s%s must %s; found %s" % (k[0], k[1], "" if k[2] is None else (" and differ" if k[2] else " and are equal"), "be reported" if v == "Some" else "not be reported", got))
-    rep.check(not probs, "R20.3", "diff", "; ".join(probs[:3]), at=df.span, fn=df.path, detail={str(k): v for k, v in table.items()})
+    rep.check(not probs, "R20.3", "diff", "; ".join(probs[:3]), at=df.span, fn=df.path, detail={str(k): v for k, v in table.items()},
+              status="refuted" if table else "undecided")     # no per-point get_pixel / set_pixel at all: a shape the table extraction cannot read
 
 
 def check_eq(prog, rep):
@@ -568,7 +569,9 @@ def check_writers(prog, rep):
                     while isinstance(ty, dict) and "ref" in ty:
                         ty = ty["ref"]
                     if isinstance(ty, dict) and ty.get("adt") == MD:
-                        writers.add(f.root_fn().path.split("::")[-1])
+                        # a helper new to the tree stores on behalf of the reference functions that use it
+                        for o_ in prog.owners(f):
+                            writers.add(prog.fns[o_].root_fn().path.split("::")[-1] if o_ in prog.fns else f.root_fn().path.split("::")[-1])
                 if s_["rv"]["k"] == "agg" and s_["rv"].get("adt") == MD:
                     ctors.add(f.root_fn().path.split("::")[-1])
     rep.check(writers <= {"set_pixel", "set_pixel_unchecked", "from_pattern"} and writers & {"set_pixel", "set_pixel_unchecked"}, "R20.5", "pixel-writers",
